@@ -136,7 +136,7 @@ theorem C10_code_never (expf : Rat → Rat) (tol t : Rat) (new old nom : Summary
 
 /-- code: a name that is none of the six raises `ValueError` -/
 theorem C10_code_unknown (expf : Rat → Rat) (name : String) (tol : Rat) (h : ∀ c : Crit, c.name ≠ name) :
-    BBGen.get_merge_accept_fn expf (PV.str name) (PV.flt (some tol)) = [PV.err "ValueError"] := by
+    BBGen.get_merge_accept_fn expf (PV.str name) (PV.flt (some tol)) = PV.err "ValueError" := by
   rw [gen_dispatch, (C10_dispatch.2.2 name tol).mpr h]
 
 /-- the exp table of the code is antitone as soon as `np.exp` is monotone -/
